@@ -25,7 +25,7 @@ O   == Trace[l - E.i]
 Pre == Trace[l - 1]
 IsChain == E.ev \in {"New", "Conv"}
 
-KnownEvent == /\ E.ev \in {"New", "Conv", "Factors", "Cross"}
+KnownEvent == /\ E.ev \in {"New", "Conv", "Factors", "Cross", "Twice"}
               /\ (E.ev = "Conv" => E.outcome \in {"ok", "raise"})
 
 Step_New  == (E.ev = "New") => /\ E.a.value = U!Clamp(E.v_in)
@@ -47,6 +47,14 @@ Cl_CrossComponent  == (E.ev = "Cross") =>
                             w == U!ConvertV(m, U!KG, E.to, E.MB)
                         IN ~E.raised /\ E.mid.units = U!KG /\ E.end.units = E.to
                            /\ EqTol(E.mid.value, m, m) /\ EqTol(E.end.value, w, w)
+\* one object converted to one target with component A, then B, then A again: each answer uses the component it was given, and
+\* the object itself is unchanged
+Cl_SameObjectTwice == (E.ev = "Twice") =>
+                        LET wa == U!ConvertV(E.v, E.from, E.to, E.MA)
+                            wb == U!ConvertV(E.v, E.from, E.to, E.MB)
+                        IN ~E.raised /\ E.first.units = E.to /\ E.second.units = E.to /\ E.again.units = E.to
+                           /\ EqTol(E.first.value, wa, wa) /\ EqTol(E.second.value, wb, wb) /\ EqTol(E.again.value, wa, wa)
+                           /\ E.obj.units = E.from /\ E.obj.value = E.v
 Cl_Factors         == (E.ev = "Factors") => /\ U!FactorKG(E.kg_si, E.M)
                                             /\ U!FactorGPU(E.gpu_si) /\ U!FactorGPU(E.gpu_si_nocomp)
 =============================================================================
